@@ -62,6 +62,10 @@ CLAIMED = {
    text="Differential validation on random populations mixing key-named files, dot-prefixed application files, sub-directories with content, temp files aged limit +-{1 ns,1 s,10 s} and exactly the limit under a scripted clock, nested directories in the temp dir: whatever disappears must be a key-named file of the directory or a stale file directly in its temp dir, stale temp files go, young ones and everything else stay; results/snapshots/traces equal to the model's. Kernel-checked: the age limit read from the current source is one hour; confinement of every mutating call to the maintained directory (C16/C15 theorems cover maintenance).",
    ref="DESIGN.md section 6 C17", technique="model/implementation correspondence under a scripted clock (Rocq scope theorem for maintenance: in progress)",
    note="Finding F2 reproduced and repaired by fix commit b0fe080."),
+ "C03": dict(category="translation_validation",
+   text="A per-inode monitor (descriptor and name tracking through rename/link) run on the implementation's complete call trace of every publishing path {set, put, set_temp_file, put_temp_file, ensure, get_or_update Replace/Promote} x {plain, sharded} x {miss, hit, secondary hit, over capacity} x sizes {1 B, empty, 4097 B/3 chunks, 300 kB/5 chunks} x auto_sync {on, off}, plus every flush failing in turn: successful flush after the last write and before the publishing rename/link, no write bit at publication, nothing written/truncated/re-moded once visible, no publication after a failed flush; call traces equal to the model's in all runs.",
+   ref="DESIGN.md section 6 C03", technique="trace monitor on intercepted implementation traces + model/implementation trace correspondence (Rocq per-inode ordering theorem: in progress)",
+   note="fsync durability is the kernel's contract; the monitors are about order."),
 }
 
 checks, na = [], []
